@@ -8,7 +8,7 @@ mod verif_l2_position {
     use super::*;
     use crate::decoder::plane::verif_row::*;
 
-    //@ob id=L2.position.rule flags=noassert props=C08,C11,C01 tier=quick kind=harness fns=plane/update_position.rs:update_position
+    //@ob id=L2.position.rule flags=noassert props=C08,C11,C19,C01 tier=quick kind=harness fns=plane/update_position.rs:update_position
     //@region update_position for every row (CPR slots and both receive times symbolic, any instants of 2026), every type code, both parities: position, distance and position time change ONLY IF both slots are non-zero, the receive times are less than 10 whole seconds apart, the type code is a position type and the global decode of exactly the stored pair anchored on this parity succeeds within [-90,90]x[-180,180]; then they are that decode, the great-circle distance from it to the observer, and the row time stamp; in every other case all three are left as they were. Nothing else in the row changes.
     #[kani::proof]
     #[kani::unwind(34)]
